@@ -850,7 +850,10 @@ class Builder(object):
                     index += 1
 
                 elif connective == 'per':
-                    data, index = self.parseDirect(tokens, index)
+                    end = index  # rx and tx are not reserved so data ends at them
+                    while end < len(tokens) and tokens[end] not in ('rx', 'tx'):
+                        end += 1
+                    data, index = self.parseDirect(tokens[:end], index)
                     init.update(data)
 
                 elif connective == 'for':
